@@ -14,7 +14,8 @@ EXPLANATION = (
     "set_state(Terminated) and on_finish, the Err edge on_error. Does not decide FIN/RST timing or promptness."
     " ERR2: every Ok(n) returned by the splice helper carries the splice system call's own count (never a constant standing for an error)."
     ' LINGER: no socket of the proxy is configured for an abortive close (SO_LINGER).'
-    ' FWD: stream adapters that implement AsyncRead/AsyncWrite by delegation forward each poll method to the inner method of the same name.')
+    ' FWD: stream adapters that implement AsyncRead/AsyncWrite by delegation forward each poll method to the inner method of the same name.'
+    ' BUF-ONCE: no second read buffer over the client stream (bytes sent right before a FIN would be dropped with it).')
 RULE_TEXT = "instances = sink variants, transfer arms, exit edges, escape APIs"
 TRUSTED = ["tokio shutdown()/AsyncFd semantics", "dropping a socket closes it"]
 NOT_DECIDED = ["FIN vs RST timing, promptness", "TLS close_notify"]
@@ -364,6 +365,8 @@ def run(chk, prog):
     # ---------------------------------------------------------------- AsyncFd readiness discipline (splice mode must not hang)
     from . import shared
     shared.rule_afd1(chk, prog)
+    # bytes sent right before a FIN must reach the other side before the FIN does: no second read buffer may swallow them
+    shared.rule_buf_once(chk, prog)
 
     # ---------------------------------------------------------------- recorded as finished
     pr = prog.body_of(prog.one(r"^process_request$"))
